@@ -1702,12 +1702,19 @@ class CodeGenerator(NodeVisitor):
         val = node.as_const(frame.eval_ctx)
         if isinstance(val, float):
             if val - val == 0:
-                self.write(str(val))
+                rv = str(val)
             else:
                 # inf and nan have no literal
-                self.write(f"float({str(val)!r})")
+                rv = f"float({str(val)!r})"
         else:
-            self.write(repr(val))
+            rv = repr(val)
+
+        if rv.startswith("-"):
+            # A folded negative number must stay one operand, -2 ** x
+            # would apply the power first.
+            rv = f"({rv})"
+
+        self.write(rv)
 
     def visit_TemplateData(self, node: nodes.TemplateData, frame: Frame) -> None:
         try:
